@@ -1407,7 +1407,57 @@ end Jwt.Generated
     return "DispatchTables.lean", text, {"jwt_sign": tables["jwt_sign"], "jwt_verify_sig": tables["jwt_verify_sig"], "verify_hmac_via": via, "kty_guard": kty_guard}
 
 
-GENERATORS = [gen_base64, gen_alg, gen_common, gen_jwk, gen_ops, gen_cli, gen_conc, gen_ecframe, gen_ll, gen_base64code, gen_digests, gen_gates, gen_decisions, gen_dispatch]
+def gen_claims(repo, build):
+    """jwt-verify.c __verify_claims / __check_str_claim: the comparisons the time claims are judged with, and the string claims"""
+    src = open(os.path.join(repo, "libjwt/jwt-verify.c")).read()
+    src = re.sub(r"/\*.*?\*/", " ", src, flags=re.S)
+    src = re.sub(r"//[^\n]*", " ", src)
+    body = func_body(src, r"\b__verify_claims\s*\(\s*jwt_t\s*\*\s*jwt\s*\)\s*\{")
+    flat = re.sub(r"\s+", "", body)
+    if "time_tnow=time(NULL);" not in flat:
+        raise ExtractError("__verify_claims: the clock is no longer read once into `now`")
+    rules = []
+    for m in re.finditer(r"if\(checker->c\.claims&JWT_CLAIM_(\w+)\)\{jwt_set_GET_INT\(&jval,\"(\w+)\"\);err=jwt_claim_get\(jwt,&jval\);"
+                         r"if\(err==JWT_VALUE_ERR_NONE\)\{if\(jval\.int_val(<=|<|>=|>)\(now([+-])checker->c\.(\w+)\)\)\{failed\|=JWT_CLAIM_(\w+);\}\}"
+                         r"elseif\(err!=JWT_VALUE_ERR_NOEXIST\)failed\|=JWT_CLAIM_(\w+);\}", flat):
+        bit, name, op, sign, field, f1, f2 = m.groups()
+        if not (bit == f1 == f2) or name != bit.lower() or field != name:
+            raise ExtractError("__verify_claims: block for %s mixes claims (%s, %s, %s, %s)" % (bit, name, field, f1, f2))
+        rules.append((bit, name, op, sign))
+    if [r[0] for r in rules] != ["EXP", "NBF"]:
+        raise ExtractError("__verify_claims: time-claim blocks not in the recognised shape: %r" % rules)
+    strs = re.findall(r"if\(__check_str_claim\(jwt,JWT_CLAIM_(\w+),\"(\w+)\"\)\)failed\|=JWT_CLAIM_(\w+);", flat)
+    if [s_[0] for s_ in strs] != ["ISS", "SUB", "AUD"] or any(a != c or b != a.lower() for a, b, c in strs):
+        raise ExtractError("__verify_claims: string-claim calls not in the recognised shape: %r" % strs)
+    if not flat.endswith("returnfailed;}"):
+        raise ExtractError("__verify_claims: does not end in `return failed;`")
+    sb = re.sub(r"\s+", "", func_body(src, r"\b__check_str_claim\s*\([^)]*\)\s*\{"))
+    for need in ("if(!(checker->c.claims&claim))return0;", "str=jwt_checker_claim_get(checker,claim);if(str==NULL)return1;",
+                 "jwt_set_GET_STR(&jval,claim_str);err=jwt_claim_get(jwt,&jval);if(err!=JWT_VALUE_ERR_NONE||strcmp(str,jval.str_val))return1;return0;}"):
+        if need not in sb:
+            raise ExtractError("__check_str_claim no longer has the shape the model assumes (missing %r)" % need[:40])
+    OPS = {"<=": "≤", "<": "<", ">=": "≥", ">": ">"}
+    text = f"""/- GENERATED by tie/extract.py from libjwt/jwt-verify.c (__verify_claims, __check_str_claim) -- do not edit.
+   The comparison each time claim is judged with (translated), and the skeleton facts the hand-written model relies on
+   (clock read once; NOEXIST passes, any other getter error fails; iss/sub/aud through __check_str_claim, which fails on
+   a missing or non-string claim and on strcmp != 0). Regenerated from /repo on every check run. -/
+namespace Jwt.Generated
+
+/-- `jval.int_val {rules[0][2]} (now {rules[0][3]} checker->c.exp)`: the token has expired -/
+def srcExpFails (v now leeway : Int) : Prop := v {OPS[rules[0][2]]} now {rules[0][3]} leeway
+
+/-- `jval.int_val {rules[1][2]} (now {rules[1][3]} checker->c.nbf)`: the token is not valid yet -/
+def srcNbfFails (v now leeway : Int) : Prop := v {OPS[rules[1][2]]} now {rules[1][3]} leeway
+
+/-- the string claims checked, in source order: (mask bit, claim name) -/
+def srcStrClaims : List (String × String) := [{", ".join('("%s", "%s")' % (a, b) for a, b, _ in strs)}]
+
+end Jwt.Generated
+"""
+    return "ClaimRules.lean", text, {"time_rules": rules, "str_claims": strs}
+
+
+GENERATORS = [gen_base64, gen_alg, gen_common, gen_jwk, gen_ops, gen_cli, gen_conc, gen_ecframe, gen_ll, gen_base64code, gen_digests, gen_gates, gen_decisions, gen_dispatch, gen_claims]
 
 
 def main():
